@@ -3229,6 +3229,236 @@ def _value_cases():  # noqa: C901
         case(label, 'display:repr-copy-deepcopy-pickle-eq-between-two-computations', layouts=one_layout())(
             displayed(make, compute, label))
 
+    # ===================================================== (l3) results vs results vs module state
+    # Two results never share memory with each other, the parts of one result do not share memory with one another,
+    # and nothing a result is made of is module state.  For every call that hands out scipp values (a fresh call each
+    # time, with arguments made anew, so that argument aliasing -- judged above -- plays no role): the call is made
+    # twice (r0, r1 equal); then a caller stores new finite values, in place, into every writable leaf of r1 in turn
+    # (leaves that hold NaN / inf / 0 included: assignment, not arithmetic); after each write
+    #   (1) every OTHER leaf of r1 keeps its bits,   (2) the result obtained EARLIER (r0) keeps its bits,
+    # and at the end  (3) a repeat of the call gives the bits of the first result.
+    def _named_leaves(o, path, out, depth=0):
+        import dataclasses
+        if depth > 5:
+            return out
+        if isinstance(o, sc.Variable):
+            out.append((path, o))
+        elif isinstance(o, sc.DataArray):
+            out.append((path + '.data', o.data))
+            for k, v in o.coords.items():
+                out.append((f'{path}.coords[{k}]', v))
+            for k, v in o.masks.items():
+                out.append((f'{path}.masks[{k}]', v))
+        elif isinstance(o, dict | sc.DataGroup):
+            for k, v in o.items():
+                _named_leaves(v, f'{path}[{k!r}]', out, depth + 1)
+        elif isinstance(o, list | tuple):
+            for i, v in enumerate(o):
+                _named_leaves(v, f'{path}[{i}]', out, depth + 1)
+        elif dataclasses.is_dataclass(o) and not isinstance(o, type):
+            for f in dataclasses.fields(o):
+                if f.name.startswith('_'):   # (not part of the public surface: what a property hands out is looked at as a result of its own)
+                    continue
+                try:
+                    _named_leaves(getattr(o, f.name), f'{path}.{f.name}', out, depth + 1)
+                except Exception:  # noqa: BLE001
+                    pass
+        return out
+
+    def _store(v, k):
+        """Store new finite values in place; True if the leaf now holds other bits than before."""
+        if v.dtype not in (sc.DType.float64, sc.DType.float32, sc.DType.int64, sc.DType.int32):
+            return False
+        before = fp(v)
+        for offset in (0.0, 1.0):
+            try:
+                new = (np.arange(int(np.prod(v.shape, dtype=int)), dtype=float).reshape(v.shape) + offset + k) * (0.0 if k == 0 and offset == 0.0 else 1.0)
+                if v.ndim == 0:
+                    v.value = new.reshape(()).astype(v.values.dtype)[()]
+                else:
+                    v.values = new.astype(v.values.dtype)
+                if v.variances is not None:
+                    v.variances = new.astype(v.values.dtype) if v.ndim else float(new)
+            except Exception:  # noqa: BLE001  (read-only: nothing a caller could do this way)
+                return False
+            if fp(v) != before:
+                return True
+        return False
+
+    def isolation_probe(name, call):
+        def run(P):
+            def verdict(kind, what, direction):
+                return _Verdict(kind, f'{name}: {what}', function=name, direction=direction)
+
+            r0 = call()
+            f0 = fp(r0)
+            r1 = call()
+            if fp(r1) != f0:
+                raise verdict('history_dependence', 'two identical calls with arguments made anew give different results', 'repeat')
+            leaves = _named_leaves(r1, 'result', [])
+            seen, uniq = set(), []
+            for path, v in leaves:   # (one Variable object reachable under two names is one leaf)
+                if id(v) not in seen:
+                    seen.add(id(v))
+                    uniq.append((path, v))
+            expect = [fp(v) for _, v in uniq]
+            written = 0
+            for i, (path, v) in enumerate(uniq):
+                if not _store(v, i):
+                    continue
+                written += 1
+                expect[i] = fp(v)
+                P.ctx.event('result_isolation_leaf_written')
+                for j, (other, w) in enumerate(uniq):
+                    if j != i and fp(w) != expect[j]:
+                        raise verdict('result_parts_share_memory', f'storing values in place into {path} changed {other} of the same result', 'leaf->other-leaf')
+                if fp(r0) != f0:
+                    raise verdict('result_aliases_earlier_result', f'storing values in place into {path} of one result changed the result an earlier, identical call had returned', 'result->earlier-result')
+            if not written:
+                raise _Insensitive()
+            if fp(call()) != f0:
+                raise verdict('history_dependence', 'after the caller stored values in place into every leaf of an earlier result the same call gives a different result', 'result-written')
+        return run
+
+    def isolation_case(entry, facet, make_call):
+        @case(entry, f'results:independent-of-each-other-and-of-writes-into-earlier-results[{facet}]', layouts=one_layout())
+        def _(P, A, O, rng, make_call=make_call):
+            seed = int(rng.integers(1 << 30))
+            probe = isolation_probe(f'{entry}[{facet}]', make_call(P, seed))
+            return lambda: probe(P)
+
+    def _fit_models(P, pk, bg):
+        M = P.peaks.model
+        peak = {'gaussian': M.GaussianModel, 'lorentzian': M.LorentzianModel, 'pseudo_voigt': M.PseudoVoigtModel}[pk](prefix='peak_')
+        return peak, M.PolynomialModel(degree=bg, prefix='bkg_')
+
+    # fits that did not produce parameters: the public factory for every kind of model pair and assessment ...
+    for pk, bg in (('gaussian', 1), ('lorentzian', 2), ('pseudo_voigt', 0)):
+        for how in ('failed', 'window_too_narrow', 'for_too_narrow_window', 'with-message'):
+            def make(P, seed, pk=pk, bg=bg, how=how):
+                def call():
+                    peak, back = _fit_models(P, pk, bg)
+                    win = _arr([1.0, 2.0], 'angstrom', dim='range')
+                    FR, FA = P.peaks.FitResult, P.peaks.FitAssessment
+                    if how == 'for_too_narrow_window':
+                        return FR.for_too_narrow_window(peak=peak, background=back, window=win)
+                    if how == 'with-message':
+                        return FR.for_failure(peak=peak, background=back, window=win, message='no luck')
+                    return FR.for_failure(peak=peak, background=back, window=win, assessment=None if how == 'failed' else FA.window_too_narrow)
+                return call
+            isolation_case('FitResult.for_failure', f'{pk}+degree-{bg}:{how}', make)
+
+    # ... and fit_peaks itself: every window too narrow, some too narrow, none; the three peak models
+    for pk, bg_name in (('gaussian', 'linear'), ('lorentzian', 'quadratic'), ('pseudo_voigt', 'linear')):
+        for facet, widths in {'all-windows-too-narrow': [0.1, 0.1], 'one-window-too-narrow': [0.1, 2.0], 'no-window-too-narrow': [2.0, 2.0],
+                              'windows-without-any-point': [1e-6, 1e-6]}.items():
+            if facet == 'no-window-too-narrow' and pk != 'gaussian':
+                continue
+            def make(P, seed, pk=pk, bg_name=bg_name, widths=widths):
+                def call():
+                    da = spectrum(np.random.Generator(np.random.PCG64(seed)))
+                    est = np.array([4.0, 6.5])
+                    w = np.array(widths)
+                    return P.peaks.fit_peaks(da, peak_estimates=_arr(est, 'angstrom'), windows=win2d(np.stack([est - w / 2, est + w / 2], axis=1)),
+                                             background=bg_name, peak=pk)
+                return call
+            isolation_case('fit_peaks', f'{pk}+{bg_name}:{facet}', make)
+
+    # the other producers of parameter sets and table values
+    for mkind in ('gaussian', 'lorentzian', 'pseudo_voigt', 'polynomial'):
+        def make(P, seed, mkind=mkind):
+            def call():
+                m, pr = builtin_with_params(P, lambda v: v, mkind, 'p_', 'float64')
+                out = [m.guess(spectrum(np.random.Generator(np.random.PCG64(seed)))), m(_arr([1.0, 1.5, 2.0], 'angstrom'), **pr)]
+                if hasattr(m, 'fwhm'):
+                    out.append(m.fwhm(pr))
+                return out
+            return call
+        isolation_case('Model.guess / __call__ / fwhm', mkind, make)
+    for iso in ('H', '2H', 'V', 'Si'):
+        isolation_case('Atom / ScatteringParams lookups', iso, lambda P, seed, iso=iso: lambda: [
+            P.Atom.for_isotope(iso), P.Atom.for_isotope(iso).atomic_weight, P.ScatteringParams.for_isotope(iso)])
+    for kname, spec in kernels_1d.items():
+        isolation_case(kname, 'fixed-operands', lambda P, seed, kname=kname, spec=spec: lambda: getattr(P.KT, kname)(**{
+            arg: _arr(np.linspace(*(np.array(probe_ranges[unit]) * (10.0 if arg == 'tof' and len(spec) == 4 else 1.0)), 3), unit) for arg, unit in spec}))
+    isolation_case('conversion.beamline kernels', 'fixed-operands', lambda P, seed: lambda: [
+        P.KB.two_theta(incident_beam=_vec([0.0, 0.0, 25.0]), scattered_beam=_vecs(unit_rows)), P.KB.L2(scattered_beam=_vecs(unit_rows)),
+        P.KB.beam_aligned_unit_vectors(incident_beam=_vec([0.0, 0.0, 25.0]), gravity=_vec(g_std, 'm/s^2')),
+        P.KB.scattering_angles_with_gravity(incident_beam=_vec([0.0, 0.0, 25.0]), scattered_beam=_vecs(unit_rows), wavelength=_arr([1.0, 2.0, 3.0], 'angstrom'),
+                                            gravity=_vec(g_std, 'm/s^2'))])
+    isolation_case('DiskChopper / Frame results', 'fixed-operands', lambda P, seed: lambda: [
+        (d := disk(P, lambda v: v, [10.0, 100.0], [60.0, 150.0])).time_offset_open(pulse_frequency=_s(14.0, 'Hz')), d.open_duration(pulse_frequency=_s(14.0, 'Hz')),
+        d.slit_begin, d.relative_time_open(), (fr := frame(P, lambda v: v).chop(chopper(P, lambda v: v, 8.0, 'm', [5e-3], [9e-3]))).bounds(), fr.subbounds()])
+
+    # ===================================================== (l4) families of CIF builders, saved in every order
+    # A builder and the builders derived from it (and from those) are independent objects: the text saved from a member
+    # of such a family equals the text saved from an identically constructed builder none of whose relatives was ever
+    # saved -- whichever relatives were saved before, whether a member was derived before or after its parent was saved.
+    # The authors have roles and contact details, so that everything a save draws from per-builder state is in the text.
+    # (Saving the SAME builder object twice continues its numbering of authors: existing behaviour, counted, not judged.)
+    cif_kinds = {
+        'with_reducers': lambda P, b, rng: b.with_reducers('prog 1.0'),
+        'with_beamline': lambda P, b, rng: b.with_beamline(P.metadata.Beamline(name='DREAM', facility='ESS')),
+        'with_reduced_powder_data': lambda P, b, rng: b.with_reduced_powder_data(powder(np.random.Generator(np.random.PCG64(11)))),
+        'with_powder_calibration': lambda P, b, rng: b.with_powder_calibration(calibration()),
+        'with_authors': lambda P, b, rng: b.with_authors(people(P)['quotes']),
+        'copy': lambda P, b, rng: b.copy(),
+    }
+    kind_names = list(cif_kinds)
+    for ki, kind in enumerate(kind_names):
+        for relation in ('grandchild', 'sibling'):
+            other = kind_names[(ki + (1 if relation == 'grandchild' else 2)) % len(kind_names)]
+
+            @case('CIF builder family', f'saved-in-every-order:{kind}+{relation}-{other}', layouts=('plain',))
+            def _(P, A, O, rng, kind=kind, relation=relation, other=other):
+                ppl = people(P)
+
+                def recipes():
+                    """member -> (parent member or None, how it is made from the parent)"""
+                    return {'base': (None, lambda _: P.cif.CIF('fam', comment='family').with_authors(ppl['contact'], ppl['non-ascii'])),
+                            'child': ('base', lambda b: cif_kinds[kind](P, b, rng)),
+                            'other': ('child' if relation == 'grandchild' else 'base', lambda b: cif_kinds[other](P, b, rng))}
+
+                def member(made, nme, rec):
+                    if nme not in made:
+                        parent, how = rec[nme]
+                        made[nme] = how(member(made, parent, rec) if parent else None)
+                    return made[nme]
+
+                def text(b):
+                    buf = io.StringIO()
+                    b.save(buf)
+                    return [ln for ln in buf.getvalue().splitlines() if 'audit.creation_date' not in ln]
+
+                def f():
+                    rec = recipes()
+                    ref = {nme: text(member({}, nme, rec)) for nme in rec}   # never-shared: none of its relatives is ever saved
+                    for nme in rec:
+                        if not any('author' in ln for ln in ref[nme]):
+                            raise _Insensitive()
+                    for eager in (True, False):
+                        for order in itertools.permutations(rec):
+                            made = {}
+                            if eager:   # the whole family exists before the first save
+                                for nme in rec:
+                                    member(made, nme, rec)
+                            saved = []
+                            for nme in order:
+                                got = text(member(made, nme, rec))
+                                P.ctx.event('cif_family_member_saved_after_relatives')
+                                if got != ref[nme]:
+                                    diff = next((f'{a!r} instead of {b!r}' for a, b in zip(got, ref[nme], strict=False) if a != b), 'different length')
+                                    raise _Verdict('history_dependence', f'CIF builder family ({kind}, {relation} {other}): the text saved from {nme!r} after '
+                                                   f'{saved or "nothing"} had been saved ({"derived before" if eager else "derived after"} those saves) differs from the text '
+                                                   f'of an identically constructed builder whose relatives were never saved: {diff}',
+                                                   family='cif-builder-family', factory=kind, needs_mutation=False)
+                                saved.append(nme)
+                    b = member({}, 'child', rec)
+                    if text(b) != text(b):
+                        P.ctx.count('the same CIF builder saved twice: the second text differs (author ids continue; existing behaviour, not judged)')
+                return f
+            _.second = False
+
     # ===================================================== (h) sizes beyond the thresholds inside the code
     # absorption/base.py switches to a per-detector loop above 20_000_000 (points x detectors); the SQW writer
     # works through pixels in chunks of 8192; beyond that generic large sizes (2**20 + 7, 3 x 400001) at which
@@ -3369,7 +3599,7 @@ def value_grid(ctx, shard, cases=None):
                               compute_transmission_map=compute_transmission_map, ScatteringParams=ScatteringParams,
                               DiskChopper=DiskChopper, extract_chopper_from_nexus=extract_chopper_from_nexus,
                               filtering=filtering, KB=KB, KT=KT, GB=GB, GT=GT, cif=cif, save_xye=save_xye, sqw=sqw, CC=CC,
-                              metadata=metadata, Atom=Atom)
+                              metadata=metadata, Atom=Atom, ctx=ctx)
     origin = {'v': 'value_grid'}
     mm = make_monitor(ctx, origin)
     tr = Tracer()
@@ -3606,6 +3836,9 @@ def mutate(obj, depth=0):
             if obj.dtype in (sc.DType.float64, sc.DType.float32, sc.DType.int64, sc.DType.int32):
                 obj *= 2
                 obj += 1
+                if obj.dtype in (sc.DType.float64, sc.DType.float32) and not np.all(np.isfinite(obj.values)):
+                    # (arithmetic leaves NaN / inf as they are: a caller replaces such entries by assignment)
+                    obj.values = np.where(np.isfinite(obj.values), obj.values, 12345.0)
                 return 1
         except Exception:  # noqa: BLE001  (read-only: fine)
             return 0
@@ -4167,7 +4400,8 @@ def plan(tier, seed):
 def requirements(tier):
     return {'events': {'mutation_monitor.judged_calls': 5000, 'alias_case': 100, 'history_sequence': 1000,
                        'history_sequence_with_mutation': 200, 'noncanon_case': N_NONCANON_RUNS,
-                       'second_use_case': len(_ALL_CASES) - 2, 'fingerprint_probe': 20, 'history_sequence_with_display': 200,
+                       'second_use_case': sum(1 for c in _ALL_CASES if getattr(c[2], 'second', True)),
+                       'result_isolation_leaf_written': 300, 'cif_family_member_saved_after_relatives': 12 * 12 * 3, 'fingerprint_probe': 20, 'history_sequence_with_display': 200,
                        'fresh_interpreter_call': len(FRESH_CALLS)},
             'forced': [*NONCANON, *('noncanon-layout:' + x for x in LAYOUTS), 'second-use:after-a-call-that-raised',
                        'second-use:after-a-call-that-returned', *('fresh-interpreter:' + c[0] for c in FRESH_CALLS)]}
